@@ -150,11 +150,14 @@ SessionCancel(c) == cst[c] = "reg" /\ Cleanup(c, "cancel") /\ UNCHANGED <<badReq
 \* Cur(stamp, what): is the request treated as current?  (model mutations treat stale stamps as current)
 Cur(stamp, what) == stamp = "cur" \/ (stamp = "old" /\ Mut = what)
 
-HandleSend(c, stamp, n, sigOK) ==
+\* late: the request's critical section runs some time after the request was read (signature verification takes time and is
+\* done outside the lock), so the epoch may have moved on since (RelaySlow.tla).  Mutation "sendsplit": the epoch check is
+\* done when the request is read, not in the critical section that deposits the message.
+HandleSendG(c, stamp, n, sigOK, late) ==
   /\ cst[c] = "reg"
   /\ LET k == KeyOf(c)  s == sess[k]  rem == Remote(c) IN
      IF ~sigOK \/ stamp = "future" THEN Cleanup(c, "err") /\ UNCHANGED <<badReq, pend>>
-     ELSE /\ IF Cur(stamp, "sendstale") /\ Local(c) = c /\ rem # None
+     ELSE /\ IF (Cur(stamp, "sendstale") \/ (late /\ stamp = "old" /\ Mut = "sendsplit")) /\ Local(c) = c /\ rem # None
              THEN /\ trk' = [trk EXCEPT ![rem].recv = n, ![rem].recvSent = 0, ![rem].recvEp = "cur"]
                   /\ wch' = SessBcast(wch, k, s.hasCur)
                   /\ sess' = [sess EXCEPT ![k].hasCur = FALSE]
@@ -164,6 +167,8 @@ HandleSend(c, stamp, n, sigOK) ==
              ELSE /\ UNCHANGED <<trk, wch, sess, badReq, pend>>
                   /\ dropFlag' = [dropFlag EXCEPT ![c] = @ \/ (stamp = "old" /\ prevOpen[c] = "old" /\ Local(c) = c)]
           /\ UNCHANGED <<cst, ret, prevOpen, peers, lst, lusurp, lx, lsent, lwch, lstale, lret, badDeliv>>
+
+HandleSend(c, stamp, n, sigOK) == HandleSendG(c, stamp, n, sigOK, FALSE)
 
 HandleAck(c, stamp, n) ==
   /\ cst[c] = "reg"
